@@ -136,6 +136,12 @@ def run(v, tier, seed, replay):
     v.cov["mismatches"] = int(nmis)
     v.cov["max_rel_err"] = float(mr)
     v.cov["setups"] = len(setups)
+    ref = [l for l in out if l.startswith("REFUSED")]
+    if ref:
+        _, nref, nm2 = ref[0].split()
+        v.cov["objects_queried_after_a_refused_evolve"] = int(nref)
+        if int(nm2) and int(nref) * 2 < int(nm2):
+            raise Infra("vacuity: GSL refused only %s of %s Evolve calls meant to fail (stale in-step view not exercised)" % (nref, nm2))
     v.cov["per_action_taken"] = cover
     cls = {}
     for q in queries:
@@ -153,12 +159,12 @@ def run(v, tier, seed, replay):
         q = queries[int(qid)]
         su = q["su"]
         w = where(q, setups[sukey(su)]["g"])
-        key = "%s/%s/%s/%s" % (fn, su["kind"], w, what.split(":")[0])
+        key = "%s/%s/%s/%s" % (fn, su["kind"], w, what.split(":")[0]) + ("/after-refused-evolve" if mode == "2" else "")
         seen[key] = seen.get(key, 0) + 1
         if seen[key] <= 2:
             v.violation(key, "%s d=%d %s grid(4x)=%s hist=%s (t-t_ini=%d*pi/4, %s) x4=%d irho=%s op=%s: %s err=%s tol=%s" % (
                 fn, su["d"], su["kind"], setups[sukey(su)]["g"], q["hist"], q["a"]["K"],
-                "clock only" if mode == "0" else "ODE solver, HI=0", q["a"]["x4"], ir, op, what, errv, tol),
+                {"0": "clock only", "1": "ODE solver, HI=0", "2": "after an Evolve refused by GSL, clock only"}.get(mode, mode), q["a"]["x4"], ir, op, what, errv, tol),
                 {"su": su, "hist": q["hist"], "x4": q["a"]["x4"], "fn": fn, "irho": int(ir), "op": int(op), "what": what})
     v.cov["mismatch_classes"] = seen
     q = queries[len(queries) // 2]
